@@ -14,4 +14,4 @@ ASSUMPTIONS = ['vf/graph.py::effect encodes the statement of C16; unspecified ca
 
 
 def streams(tier):
-    return hist_streams('C16', 'legal', 2400, 60000)
+    return hist_streams('C16', 'legal', 8000, 80000)
